@@ -465,7 +465,12 @@ func main() {
 	par := flag.Int("par", 12, "runs in parallel")
 	only := flag.Int("only", -1, "run only the case with this index (same seed, same script)")
 	wired := flag.Bool("wired", false, "run the engines the socks/docker/elastic commands build (option parsing + newScanEngine) for --rate / --workers settings incl. rates below 1/s")
+	e2e := flag.String("e2e", "", "path of the sx binary: run the real socks/elastic/docker commands against loopback services")
 	flag.Parse()
+	if *e2e != "" {
+		runE2E(*e2e, *outp)
+		return
+	}
 	if *wired {
 		runWired(*outp)
 		return
